@@ -47,6 +47,18 @@ def _move(kind, S_i, S_j):
             s.import_one(name, None, [S_j[name]], message="m")
 
 
+def _digest(out):
+    if not isinstance(out, list):
+        return ("other", getattr(out, "status", None))
+    d = []
+    for r in out:
+        if isinstance(r, XSync.SyncToken):
+            d.append(("token", r.token))
+        else:
+            d.append((r.href, r.status, tuple((ps.statuscode, ps.prop.tag, ps.prop.text) for ps in (r.propstat or []))))
+    return sorted(d, key=repr)
+
+
 def body_sync(a0, a1, a2, b0, b1, b2):
     kind, tok = ctx.PART
     n = ctx.b.n
@@ -97,6 +109,14 @@ def body_sync(a0, a1, a2, b0, b1, b2):
             failed = None
         except Exception as e:
             out, failed = None, e
+        # reads change nothing: the same request again (same long-lived store object, as under the store cache:
+        # a retry, or a second replica holding the same token) must be answered identically
+        try:
+            out2 = drive(app._handle_request(
+                mhttp.AioRequest("REPORT", "/col/", headers=[("Depth", "1")], body=b"<x/>", content_type="text/xml"),
+                {"SCRIPT_NAME": "/"}))
+        except Exception as e:
+            out2 = None
     finally:
         W._readXmlBody, W._send_dav_responses = saved
     if isinstance(out, W.Response) or isinstance(out, W.Status):
@@ -109,6 +129,8 @@ def body_sync(a0, a1, a2, b0, b1, b2):
         listing = out
     if cls in ("foreign", "nontree"):
         return (error_answer, cls)
+    if _digest(out) != _digest(out2):
+        return (False, cls + ":not-repeatable")
     if error_answer or listing is None:
         return (False, cls)
     base = S_i if cls == "valid" else {}
